@@ -444,6 +444,40 @@ def r_mirror_flag_writers(rule, root=None):
         rule.ok("the winding flag is written only in Octree::build, on the octree both paths return", file=OCT, line=writers[0][1]["ln"])
 
 
+def r_same_tiles_both_ways(rule, root=None):
+    """`render_tiles` fans out over the same tile list with and without a pool: the serial arm and the pooled arm of
+    its `match threads` iterate one and the same collection (a tile numbering that is decoded separately for the pool
+    is a second definition of the tile grid)"""
+    fn = A.find_fn(R.LIB, "render_tiles", root=root)
+    ms = [m for m in A.find(fn["body"], "Match") if "threads" in str(txt(m["e"]))]
+    if not ms:
+        rule.lost("match eval_config.threads() in render_tiles")
+        return
+    srcs = []
+    for arm in ms[0]["arms"]:
+        t = str(txt(arm["body"]))
+        m = re.search(r"([\w.()*+\[\]]+?)\.(?:into_par_iter|par_iter|into_iter|iter)\(\)", t)
+        srcs.append(m.group(1) if m else None)
+    if len(srcs) == 2 and srcs[0] and srcs[0] == srcs[1]:
+        rule.ok("render_tiles maps `%s` serially and on the pool" % srcs[0], file=R.LIB, line=ms[0]["ln"])
+    else:
+        rule.bad("pool|tiles|source", "render_tiles iterates `%s` without a pool and `%s` with one: both must walk the same tile list, or the image depends on whether a pool is configured" % (srcs[0] if srcs else None, srcs[1] if len(srcs) > 1 else None), A.where(R.LIB, ms[0]))
+
+
+def r_pool_run_is_transparent(rule, root=None):
+    """`ThreadPool::run(f)` runs f - on the custom pool's threads or in place - and does nothing else: no per-thread
+    preparation (floating-point control bits, thread-locals) that the pool-less paths, which never call it, would lack"""
+    CFG = "fidget-core/src/render/config.rs"
+    fn = A.find_fn(CFG, "run", self_ty="ThreadPool", root=root)
+    calls = [c["method"] for c in A.find(fn["body"], "MethodCall")] + [(A.path_segs(c["func"]) or ["?"])[-1] for c in A.find(fn["body"], "Call")]
+    extra = [c for c in calls if c not in ("install", "f")]
+    unsafe = list(A.find(fn["body"], "Unsafe"))
+    if extra or unsafe or len(A.stmts_of(fn["body"])) != 1:
+        rule.bad("pool|run|extra", "ThreadPool::run does more than run its closure (%s): anything it sets up on the pool's threads is missing when no pool is configured (and stays behind on long-lived threads)" % (", ".join(extra) or "unsafe / extra statements"), A.where(CFG, fn))
+    else:
+        rule.ok("ThreadPool::run only installs / calls the closure", file=CFG, line=fn["ln"])
+
+
 def run(ctx):
     r = ctx.rule("R1", "an abort originates only from the cancel token (or a child's abort) and turns the whole result into None", 16)
     ctx.guarded(r, r1_cancellation)
@@ -453,9 +487,11 @@ def run(ctx):
     ctx.guarded(r, r_token_consumers)
     r = ctx.rule("R3c", "nothing derived from the thread pool reaches the tiling parameters", 2)
     ctx.guarded(r, r_pool_free_parameters)
-    r = ctx.rule("R3d", "only the vetted fan-out sites consult the pool (run work on it, ask its size, branch on its presence); result assembly is the same code with and without one; the winding flag is written where both meshing paths have joined", 4 + 1)
+    r = ctx.rule("R3d", "only the vetted fan-out sites consult the pool (run work on it, ask its size, branch on its presence); result assembly is the same code with and without one; the winding flag is written where both meshing paths have joined; the fan-out walks one tile list both ways; ThreadPool::run only runs the closure", 4 + 1 + 2)
     ctx.guarded(r, r_pool_sites)
     ctx.guarded(r, r_mirror_flag_writers)
+    ctx.guarded(r, r_same_tiles_both_ways)
+    ctx.guarded(r, r_pool_run_is_transparent)
     r = ctx.rule("R1c", "the pooled meshing path is reached only with inputs for which every task has a parent slot", 1)
     ctx.guarded(r, r1c_mt_precondition)
     r = ctx.rule("R2", "shared-state inventory: vetted unsafe Send/Sync, only the cancel flag is interiorly mutable, JIT handles immutable", 14)
